@@ -4,7 +4,7 @@
 set -u
 patch=$(readlink -f "$1"); tier=$2; shift 2
 scratch=$(mktemp -d /tmp/mutrepo.XXXXXX)
-cp -a /repo/. "$scratch"/ && rm -rf "$scratch/.git"
+rsync -a --exclude .git /repo/ "$scratch"/
 ( cd "$scratch" && patch -p1 -s < "$patch" ) || { echo "patch failed"; rm -rf "$scratch"; exit 3; }
 cd "$(dirname "$0")/.."
 for p in "$@"; do
